@@ -7,7 +7,31 @@
 
 use std::io::{Read, Write};
 
-use vaporetto::{CharacterBoundary, Model, Predictor, Sentence};
+use vaporetto::{CharacterBoundary, CharacterType, Model, Predictor, Sentence};
+use vaporetto_rules::sentence_filters::{ConcatGraphemeClustersFilter, KyteaWsConstFilter, SplitLinebreaksFilter};
+use vaporetto_rules::SentenceFilter;
+
+/// Writers, token iteration and the post-filters on the predicted (and tagged) sentence. The
+/// output is not transmitted: this part exists for the builds with run-time checks (C18), where
+/// only "no crash" counts.
+fn exercise(s: &mut Sentence) {
+    let mut buf = String::new();
+    s.write_tokenized_text(&mut buf);
+    s.write_partial_annotation_text(&mut buf);
+    let _ = s.iter_tokens().map(|t| t.surface().len() + t.tags().len()).sum::<usize>();
+    let filters: [Box<dyn SentenceFilter>; 5] = [
+        Box::new(KyteaWsConstFilter::new(CharacterType::Digit)),
+        Box::new(KyteaWsConstFilter::new(CharacterType::Other)),
+        Box::new(KyteaWsConstFilter::new(CharacterType::Kanji)),
+        Box::new(SplitLinebreaksFilter),
+        Box::new(ConcatGraphemeClustersFilter),
+    ];
+    for f in filters {
+        f.filter(s);
+        s.write_tokenized_text(&mut buf);
+    }
+    let _ = s.iter_tokens().count();
+}
 
 fn rd_u32(b: &[u8], p: &mut usize) -> u32 {
     let v = u32::from_le_bytes(b[*p..*p + 4].try_into().unwrap());
@@ -127,9 +151,11 @@ fn run_texts(predictor: &Predictor, texts: &[String], predict_tags: bool, out: &
                     }
                 }
             }
+            exercise(&mut s);
             continue;
         }
         out.push(0u8);
+        exercise(&mut s);
     }
 }
 
